@@ -202,7 +202,7 @@ def cases():
             out.append({'label': '%s/k%d' % (m.name, k), 'mesh': m, 'fields': fsets[(i + k) % len(fsets)],
                         'layout': families.scatter_layouts(m, rnd, max_files=3), 'geom': (i + k) % 3})
     n = 0
-    while n < (10 if tier == 'quick' else 60):
+    while n < (10 if tier == 'quick' else 250):
         m = families.random_mesh(rnd, 2, max_levels=3, max_boxes=4)
         if m.ncell0[0] < 3:
             continue
